@@ -273,7 +273,8 @@ class SchemaGen:
         t = ty
         while "nn" in t: t = t["nn"]
         if "l" in t:
-            return r.choice([(1, 2), {"a": 1}, "notalist", 5, {"o": "Gen", "a": []}, [None], [[None]]])
+            # look-alikes of a list, including the EMPTY / falsy ones (an `if not result` shortcut must not let them through)
+            return r.choice([(1, 2), {"a": 1}, "notalist", 5, {"o": "Gen", "a": []}, [None], [[None]], (), {}, "", 0, False])
         b = t["n"]
         if b == "Int": return r.choice(["2147483648", "-2147483649", "1e10", 2**31, -2**31 - 1, 1.5, "1.5", "12", 12.0, float("nan"), True, "", " 7 ", 10**400, "0x10"])
         if b == "Float": return r.choice(["1e999", "-1e999", "nan", "inf", "-Infinity", float("inf"), float("nan"), 10**400, "1.5", "abc", True, [], "1e-999"])
